@@ -255,24 +255,19 @@ pub(crate) fn indent(val: &str, kwargs: Kwargs, _: &State) -> TeraResult<String>
     let indent = " ".repeat(width);
     let mut res = String::with_capacity(val.len() * 2);
 
+    // Keep the line terminators as they are (`lines()` would turn `\r\n` into `\n`)
     let mut first_line = true;
-    for line in val.lines() {
+    for line in val.split_inclusive('\n') {
+        let is_blank = line.trim_end_matches(['\r', '\n']).is_empty();
         if first_line {
             if indent_first_line {
                 res.push_str(&indent);
             }
             first_line = false
-        } else {
-            res.push('\n');
-            if !line.is_empty() || indent_blank_line {
-                res.push_str(&indent);
-            }
+        } else if !is_blank || indent_blank_line {
+            res.push_str(&indent);
         }
         res.push_str(line);
-    }
-
-    if val.ends_with('\n') {
-        res.push('\n');
     }
 
     Ok(res)
